@@ -51,7 +51,81 @@ CLAIMS["C18"] = dict(
     text="Solver-decided: (M) every handler called from process_normal_command that has a database parameter receives the caller's db unchanged on every feasible path, every reachable handler without one is in the reviewed database-independent list, EXEC and EVALSHA pass the database through; (K) engine operations on database a leave database b untouched (see evidence for the harness list).",
     note=TM + TB + "Outside: SELECT inside MULTI acting on connection 0 (conn_id 0 during EXEC), WATCH baseline database vs EXEC-time database, blocking wake-ups' saved database (structural only).")
 
-NOT_APPLICABLE = {}
+CLAIMS["C02"] = dict(
+    engine="K+M",
+    technique="bounded model checking (Kani/CBMC) with the clock as a symbolic variable; MIR -> SMT query for the sweeper's structure",
+    text="Solver-decided, bounded: with deadline and clock both symbolic (every offset in an 18-hour window at nanosecond resolution) GET/EXISTS/SETNX see the key intact before the deadline and absent after it; SET removes the TTL; EXPIRE/PERSIST/TTL/PTTL arithmetic for every u32-second duration; RENAME carries the deadline and the index entry; the sweeper's per-key step removes a key iff its STORED deadline has passed from ANY combination of stored deadline and (possibly stale) index entry, and (Engine M) the sweeper loop removes keys only through that step. Representative operations that ignore an elapsed deadline are listed as known findings.",
+    note=TB + TM + "Outside: interleavings of the sweeper thread with the command thread (no concurrency in Kani), the ~30 engine operations that do not expire lazily beyond the six representative known findings, wall-clock vs monotonic clock, RDB-restored deadlines (C09).")
+
+CLAIMS["C03"] = dict(
+    engine="K",
+    technique="bounded model checking (Kani/CBMC) of the real engine list/set/hash operations against a Redis reference model, full-width symbolic indices",
+    text="Solver-decided, bounded: LINDEX/LSET/LRANGE/LTRIM with full-width symbolic indices on lists of 1-3 symbolic elements equal the Redis index normalisation model (incl. out-of-range and reversed ranges); LPUSH/RPUSH/LPOP/RPOP order, returned element and key removal when emptied; SADD/SISMEMBER/SCARD/SREM-last and HSET/HGET/HEXISTS/HLEN on symbolic members; list/set/hash commands against a string key are WRONGTYPE without effect; watchers are notified iff the value changed (C08).",
+    note=TB + " Outside (CBMC out of memory at 14 GB): LREM, SREM/HDEL on multi-member collections, LPUSH onto a non-empty list, SPOP/SRANDMEMBER (thread_rng), set algebra, HINCRBY (decimal codec on symbolic values), collections larger than 3, the text handlers in commands/{lists,sets,hashes}.rs.")
+
+CLAIMS["C04"] = dict(
+    engine="K+M",
+    technique="bounded model checking (Kani/CBMC, memory-safety checks on) of ONE real skip-list operation from a directly built arbitrary valid list; MIR -> SMT failure-atomicity query for ZADD",
+    text="Solver-decided, bounded: from a skip list built directly with 2-3 nodes, symbolic distinct members, arbitrary non-NaN scores assumed ordered and enumerated tower shapes, ONE real insert / re-score / remove / rank / range operation preserves the all-levels structural invariant (level-0 strictly increasing by (score, member), higher levels sub-sequences, length = chain = index) and answers like a sorted-vector model; engine ZRANGE/ZREVRANGE/ZRANK/ZSCORE/ZCARD/ZRANGEBYSCORE/ZCOUNT equal the Redis model for full-width arguments; NaN is refused by zadd/zincrby; (M) no argument-error reply of handle_zadd is reachable after an earlier pair took effect.",
+    note=TB + TM + " MAX_LEVEL shrunk 32 -> 4 in the scratch copy (towers > 4 outside), at most 3 members, a few of the 64 tower shapes (induction holds for those shapes), random_level stubbed by a concrete level per harness, key_index replaced by a fixed-capacity model; ZPOPMIN/ZPOPMAX and removal-of-last-member at engine level not decided.")
+
+CLAIMS["C06"] = dict(
+    engine="K+M",
+    technique="panic/overflow/bounds obligations of every Kani harness of the other properties + dedicated full-width boundary harnesses + allocation obligations",
+    text="Solver-decided, bounded: every Kani harness registered for C01-C04, C09, C10, C15, C20 runs with Kani's default checks (panic, unwrap, index and slice bounds, arithmetic overflow; pointer checks where the code under test is unsafe), so 'the unit returns for every input inside the bound' is an obligation of each; dedicated harnesses cover GETRANGE/LINDEX/LSET/LRANGE/LTRIM/ZRANGE with full-width indices, EXPIRE/SET EX with any Duration, the frame parser per type byte over arbitrary bytes, aggregate headers and RDB strings never reserving more than the bytes received, stream-ID parsing over arbitrary (non-UTF-8) bytes.",
+    note=TB + " Reduced: no liveness (hang, deadlock, 'stops answering'), no process-level behaviour (poisoned locks), nothing behind the Server-method text handlers (BLPOP timeout inf/nan, DECRBY i64::MIN, SETRANGE huge offset, SRANDMEMBER huge negative count were seen by reading and are NOT decided), Lua, replication.")
+
+CLAIMS["C08"] = dict(
+    engine="K",
+    technique="bounded model checking (Kani/CBMC): per mutating engine operation, changed => modification counter bumped; other keys never reported",
+    text="Solver-decided, bounded: every one-step engine harness of C01/C02/C03 registers WATCH baselines with the real register_watch on the key under test and on another key of the same shard, and asserts after the operation that an observable change is reported by was_modified_since and that the other key is never reported; dedicated harnesses for EXPIRE, PERSIST, RENAME (both names), FLUSHDB (and not the other database) and expiry by the sweeper step.",
+    note=TB + " Outside: EXEC's re-check loop in Server::handle_exec (structure only, C07), unregister on EXEC/DISCARD (leak, not a violation), WATCH baseline taken in one database and checked in another after SELECT, counters near u64::MAX.")
+
+CLAIMS["C09"] = dict(
+    engine="K",
+    technique="bounded model checking (Kani/CBMC) of the real RDB writer and reader: codec identities for all lengths < 2^32, per-type record round trips",
+    text="Solver-decided, bounded: read_length(write_length(n)) == n with exact consumption for ALL n <= 2^32-1 (covers the 63/64/16383/16384/65536 boundaries); string codec for 0-3 symbolic bytes; string records round-trip through a real engine; list/set/hash records make the reader issue exactly the engine calls that rebuild the saved value (recorded calls), then EXPIRE iff a TTL was saved; saved deadline = now + ttl in ms and restored TTL = deadline - load time for symbolic wall clocks; a key whose deadline passed during downtime is not restored as a persistent key.",
+    note=TB + " Outside: sorted-set and stream records, files with more than one key (composition argued from self-delimiting records), header/db selector (format! of the version), lengths >= 2^32 and the list-marker collision (known findings), file-system effects.")
+
+CLAIMS["C10"] = dict(
+    engine="K",
+    technique="bounded model checking (Kani/CBMC): loader totality over arbitrary bytes and every prefix, allocation obligation, writer fault propagation with a symbolic failure point",
+    text="Solver-decided, bounded: read_string and the string record loader over arbitrary bytes and every prefix return Ok (consuming exactly the bytes) or Err, never panic; unknown type bytes are errors; no allocation is sized by a length field larger than the bytes present; for list, hash, string+TTL records and the frame (db selector, resize hint, EOF, checksum) a write failing at ANY point (symbolic) propagates as Err with no further write attempted.",
+    note=TB + " Reduced: the schedule-quantified half (a snapshot taken while clients write is per-key consistent; SAVE and BGSAVE sharing a temp path) is concurrency and is NOT claimed; container-type loader totality and the load_into dispatch loop did not fit (out of memory); RdbEngine::save's rename-after-success ordering is not decided.")
+
+CLAIMS["C13"] = dict(
+    engine="K+M",
+    technique="bounded model checking (Kani/CBMC) of the blocking registry from enumerated registry shapes with symbolic ids/deadlines; MIR -> SMT query on wake_client",
+    text="Solver-decided, bounded: BlockingRegistry::pop_first_waiter and register_blocked_client from 17 enumerated registry shapes (<= 3 clients, <= 2 keys, <= 2 keys per client; ids, deadlines, pop direction symbolic): FIFO per key, blocked_keys = keys with a non-empty queue, full post-state equals the model, and a popped client is registered under NO key afterwards; (M) the pop performed by wake_client is checked for an AOF record (known finding under C11).",
+    note=TB + TM + " Reduced: unregister_client, get_expired_clients and the BlockingManager (SegQueue) level did not fit; promptness, real timeouts, disconnect ordering, the multiset equation over whole histories and wake_client dropping an element when the connection is no longer blocked are outside.")
+
+CLAIMS["C14"] = dict(
+    engine="K+M",
+    technique="bounded model checking (Kani/CBMC) of the pub/sub glob against a table-based Redis stringmatchlen reference and of (un)subscribe bookkeeping; MIR -> SMT query for publish",
+    text="Solver-decided, bounded: pattern_matches(p, t) equals the Redis glob reference for all patterns of <= 4 bytes without '[' and texts of <= 3 bytes; SUBSCRIBE/UNSUBSCRIBE acknowledgement counts and the three internal maps equal the model after one operation; (M) in PubSubManager::publish no receiver push is guarded by a per-connection de-duplication test (one delivery per matching subscription).",
+    note=TB + TM + " Outside: publish/unsubscribe_all under Kani (out of memory), character classes (known finding), silent UNSUBSCRIBE of nothing (known finding), delivery into socket buffers, ordering across publishers.")
+
+CLAIMS["C15"] = dict(
+    engine="K",
+    technique="bounded model checking (Kani/CBMC) of the real stream functions from a directly built stream with symbolic 128-bit IDs against an ordered-map model",
+    text="Solver-decided, bounded: StreamId order/round trip for all IDs; from_string equals the <ms>-<seq> grammar on <= 5 arbitrary bytes and never panics (also on invalid UTF-8 through the XADD idiom); 20-digit values parse exactly or are refused; XADD * returns an ID greater than last_id for an arbitrary clock (incl. behind last_id and seq = u64::MAX) with the three last_id copies in agreement; explicit ID <= last refused without effect; range / reverse range / range_after with COUNT on 0-3 entries with symbolic IDs and bounds equal the filter model; XDEL and XTRIM leave exactly the modelled entries, XLEN correct, last_id never decreases.",
+    note=TB + " Entries carry empty field maps except one fields harness (StreamEntry::clone replaced by an exact shape-asserting stub), Vec::new/push replaced by exact non-growing stubs; the text handlers of commands/streams.rs other than the ID idiom are not executed; last_id == (u64::MAX, u64::MAX) still overflows (add_auto cannot refuse).")
+
+CLAIMS["C16"] = dict(
+    engine="K",
+    technique="bounded model checking (Kani/CBMC) of PendingEntryList operations from a directly built consistent state, and of Stream::read_group's cursor",
+    text="Solver-decided, bounded: add / re-add of an already pending ID / remove (XACK core) / transfer (XCLAIM core) / delete-consumer on a pending list with 2 pending IDs and 2 consumers preserve: by-ID content and owners, sum of per-consumer list lengths = number of pending IDs, min/max bounds; XGROUP CREATE starts at the requested ID, duplicate CREATE refused, SETID, DESTROY; XREADGROUP > with NOACK advances the cursor exactly to the last delivered ID.",
+    note=TB + " Inline container family (<= 4 entries). Outside: ConsumerGroup-level acknowledge/claim with idle time, membership of each ID in the right per-consumer list (complete comparison out of memory), add_pending's unconditional counter increments, XPENDING range with consumer filter, XAUTOCLAIM.")
+
+CLAIMS["C19"] = dict(
+    engine="K",
+    technique="bounded model checking (Kani/CBMC) of complete SCAN iterations of the real engine with a modification between calls",
+    text="Solver-decided, bounded: a complete cursor iteration (COUNT 1 and 2) over three keys in two shards returns every key that existed throughout, nothing that never existed, and terminates within |S|+1 calls, also when another key is added after the first call; deleting an already-returned smaller key makes the index cursor skip a stable key (known finding).",
+    note=TB + " SHARDS_PER_DATABASE shrunk 16 -> 2 in the scratch copy. Outside: MATCH/TYPE filters and the engine's char-based glob, HSCAN/SSCAN/ZSCAN, COUNT > 2, more than one modification.")
+
+NOT_APPLICABLE = {
+    "C12": "Script atomicity, KEYS/ARGV fidelity, pcall/call control flow, EVALSHA==EVAL and the sandbox live in or behind the Lua VM (C code through FFI; kani-compiler ICEs on mlua's catch_unwind trampolines and there is no Lua semantics for the solver). The only solver-decidable part - the database a redis.call / EVALSHA acts on - is decided under C18 (queries c18_db_arg_execute_*, c18_db_arg_evalsha). Equality of the 3600-line executor with the direct Server-method handlers needs both sides under Kani, which did not fit.",
+}
 
 NOTES = ("Solver-based checking of the real code. Engine K = Kani harness overlays appended to a scratch copy of /repo's current working tree "
          "(regenerated on every run); Engine M = MIR->SMT path encoder. Exit 2 = inconclusive (never success). See DESIGN.md.")
